@@ -31,6 +31,23 @@ type Inner struct {
 type Wrapper struct{ V interface{} }
 
 type NamedStr string
+
+// JSONOnly has json tags and no bexpr tags: with the default tag name its
+// fields are addressed by their Go names.
+type JSONOnly struct {
+	Name string            `json:"name"`
+	Port int               `json:"port"`
+	Meta map[string]string `json:"meta"`
+	Tags []string          `json:"tags"`
+}
+
+// BexprTagged spells the same fields through bexpr tags.
+type BexprTagged struct {
+	Name string            `bexpr:"name"`
+	Port int               `bexpr:"port"`
+	Meta map[string]string `bexpr:"meta"`
+	Tags []string          `bexpr:"tags"`
+}
 type NamedSlice []Inner
 type NamedMap map[string]Inner
 
@@ -129,6 +146,40 @@ func Build(d DatumSpec) interface{} {
 		}
 		ps, is, pps := mk(r.Range(2, 6))
 		v = map[string]interface{}{"names": ps, "nums": is, "deep": pps, "n": len(ps)}
+	case d.Gen == "tagged":
+		// one record in four representations (seed%4): json-tagged struct, its
+		// pointer, bexpr-tagged struct, plain map
+		name := []string{"web", "db", "api"}[int(d.Seed/4)%3]
+		port := []int{80, 443, 8080}[int(d.Seed/12)%3]
+		meta := map[string]string{"env": []string{"prod", "dev"}[int(d.Seed/36)%2]}
+		tags := []string{"a", name}
+		switch d.Seed % 4 {
+		case 0:
+			v = JSONOnly{Name: name, Port: port, Meta: meta, Tags: tags}
+		case 1:
+			v = &JSONOnly{Name: name, Port: port, Meta: meta, Tags: tags}
+		case 2:
+			v = BexprTagged{Name: name, Port: port, Meta: meta, Tags: tags}
+		default:
+			v = map[string]interface{}{"name": name, "Name": name, "port": port, "Port": port, "meta": meta, "tags": tags}
+		}
+	case d.Gen == "inlist":
+		// []interface{} lists with one "hit" at a seeded position and, in half of
+		// them, an element no literal can be compared with at another position
+		n := 3 + int(d.Seed/7)%4
+		l := make([]interface{}, n)
+		for i := range l {
+			l[i] = []interface{}{"a", "b", 7, "c", 2.5, "d"}[(i+int(d.Seed))%6]
+		}
+		hit := int(d.Seed) % n
+		l[hit] = "hit"
+		if (d.Seed/3)%2 == 0 {
+			bad := int(d.Seed/5) % n
+			if bad != hit {
+				l[bad] = map[string]interface{}{"m": 1}
+			}
+		}
+		v = map[string]interface{}{"xs": l, "n": n}
 	case d.Gen == "floats":
 		// the same decimal numbers as float32 in one datum and float64 in the next:
 		// 0.1, 0.3, 1.1 are different numbers at the two widths
